@@ -19,6 +19,9 @@ mod ssa_analysis_tests;
 pub mod type_;
 /// All the core type checker rules in one place.
 mod type_system;
+/// Verification hooks for C06 (compiled only with `--cfg samlang_verif`).
+#[cfg(samlang_verif)]
+pub mod verif_hooks_c06;
 /// All the typing context in one place.
 mod typing_context;
 mod typing_context_tests;
